@@ -290,6 +290,35 @@ fn opt_str(rng: &mut Rng) -> Option<String> {
     if rng.chance(1, 2) { Some(rand_str(rng)) } else { None }
 }
 
+/// the installed path a destination names: leading "." dropped, repeated slashes and "." components collapsed, no
+/// trailing slash (the harness's own statement of it; the specification has Builder!NormalPath)
+pub fn installed_path(dest: &str) -> String {
+    let d = dest.strip_prefix('.').unwrap_or(dest);
+    let comps: Vec<&str> = d.split('/').filter(|c| !c.is_empty() && *c != ".").collect();
+    format!("/{}", comps.join("/"))
+}
+
+/// another spelling of the same destination: a repeated slash or a "." component in front of the file name, a trailing
+/// slash or "/." (spellings deeper inside the directory part are kept as they are by the builder and only name the
+/// same place; they are left alone here so that "the path" stays one string)
+pub fn respell(rng: &mut Rng, dest: &str) -> String {
+    let (lead, rest) = if let Some(r) = dest.strip_prefix('.') { (".", r) } else { ("", dest) };
+    let comps: Vec<&str> = rest.split('/').filter(|c| !c.is_empty()).collect();
+    if comps.is_empty() { return dest.to_string(); }
+    let mut out = String::from(lead);
+    let at = comps.len() - 1;
+    let kind = rng.below(4);
+    for (i, c) in comps.iter().enumerate() {
+        out.push('/');
+        if i == at && kind == 0 { out.push('/'); }
+        if i == at && kind == 1 { out.push_str("./"); }
+        out.push_str(c);
+    }
+    if kind == 2 { out.push('/'); }
+    if kind == 3 { out.push_str("/."); }
+    out
+}
+
 pub fn rand_dest(rng: &mut Rng, used: &mut Vec<String>) -> String {
     loop {
         let depth = rng.below(4);
@@ -337,7 +366,7 @@ pub fn rand_file(rng: &mut Rng, used: &mut Vec<String>, max_len: usize) -> FileC
         }
     }
     FileCfg {
-        dest: rand_dest(rng, used),
+        dest: { let d = rand_dest(rng, used); if rng.chance(1, 8) { respell(rng, &d) } else { d } },
         // (symlink and directory entries usually come from empty placeholders, but the builder archives whatever the
         // source holds)
         len: if kind <= 1 && !rng.chance(1, 4) { 0 } else { len },
@@ -417,7 +446,7 @@ pub fn rand_cfg(rng: &mut Rng, max_files: u64, max_len: usize) -> Cfg {
     // names that differ only in a leading dot of the last component (hidden files), also directly below the root
     if !cfg.files.is_empty() && rng.chance(1, 2) {
         let k = rng.below(cfg.files.len() as u64) as usize;
-        let path = cfg.files[k].dest.trim_start_matches('.').to_string();
+        let path = installed_path(&cfg.files[k].dest);
         if let Some((dir, name)) = path.rsplit_once('/') {
             let twin = format!("{dir}/.{name}");
             if !used.contains(&twin) && cfg.files[k].mode.map_or(true, |m| m & 0o170000 != 0o040000) {
@@ -431,7 +460,7 @@ pub fn rand_cfg(rng: &mut Rng, max_files: u64, max_len: usize) -> Cfg {
     // names that differ only in the case of a letter
     if !cfg.files.is_empty() && rng.chance(1, 4) {
         let k = rng.below(cfg.files.len() as u64) as usize;
-        let path = cfg.files[k].dest.trim_start_matches('.').to_string();
+        let path = installed_path(&cfg.files[k].dest);
         if let Some(pos) = path.rfind(|c: char| c.is_ascii_lowercase()) {
             let mut twin = path.clone();
             let up = twin[pos..pos + 1].to_ascii_uppercase();
@@ -448,7 +477,7 @@ pub fn rand_cfg(rng: &mut Rng, max_files: u64, max_len: usize) -> Cfg {
     // a path that is a proper suffix of another one which sorts before it (/0pre/usr/f1 and /usr/f1)
     if !cfg.files.is_empty() && rng.chance(1, 3) {
         let k = rng.below(cfg.files.len() as u64) as usize;
-        let path = cfg.files[k].dest.trim_start_matches('.').to_string();
+        let path = installed_path(&cfg.files[k].dest);
         let twin = format!("/0pre{path}");
         if !used.contains(&twin) && cfg.files[k].mode.map_or(true, |m| m & 0o170000 != 0o040000) {
             used.push(twin.clone());
